@@ -21,7 +21,7 @@ ASSUMPTIONS = [
     "distance is judged as computed in float64 (|g - v| rounded); an exactly-nearest element is always accepted",
     "values are finite; grids are sorted ascending",
 ]
-REQUIRED_COUNTERS = {"arrays_of_k_times_65536_plus_1_values": 8, "concurrent_snap_rounds": 15, "extra_values_write_protected": 50, "extra_values_zero_stride_broadcast": 50, "extra_values_empty": 50, "extra_consecutive_integer_grid_around_zero": 50, "extra_errstate_all_raise": 50, "extra_digitize_fortran_order": 50, "extra_digitize_write_protected": 50, "extra_linspace_grid": 50, "extra_integer_values": 50, "extra_values_2d": 50, "extra_values_fortran_order": 50, "extra_values_transposed_view": 50, "extra_grid_near_float_max": 50, "extra_gaps_above_1e154": 50, "extra_earlier_results_rechecked": 50, "large_arrays": 20, "digitize_same_endpoint_families": 30, "values_checked": 1000, "midpoint_probes": 50, "outside_probes": 50, "digitize_columns": 10}
+REQUIRED_COUNTERS = {"extra_digitize_nearly_equal_grids": 50, "arrays_of_k_times_65536_plus_1_values": 8, "concurrent_snap_rounds": 15, "extra_values_write_protected": 50, "extra_values_zero_stride_broadcast": 50, "extra_values_empty": 50, "extra_consecutive_integer_grid_around_zero": 50, "extra_errstate_all_raise": 50, "extra_digitize_fortran_order": 50, "extra_digitize_write_protected": 50, "extra_linspace_grid": 50, "extra_integer_values": 50, "extra_values_2d": 50, "extra_values_fortran_order": 50, "extra_values_transposed_view": 50, "extra_grid_near_float_max": 50, "extra_gaps_above_1e154": 50, "extra_earlier_results_rechecked": 50, "large_arrays": 20, "digitize_same_endpoint_families": 30, "values_checked": 1000, "midpoint_probes": 50, "outside_probes": 50, "digitize_columns": 10}
 SHARDS = {"quick": 8, "thorough": 16}
 
 
@@ -218,6 +218,20 @@ def extras(rng, out, get_closest, digitize_data):
                     out["violations"].append({"msg": f"{label} column {j}: {why}", "witness": {"grid": gl[j], "data": np.array(arr)}})
         except Exception as e:  # noqa: BLE001
             out["violations"].append({"msg": f"{label} raised {type(e).__name__}: {e}", "witness": {"data": np.array(arr)}})
+    # columns whose grids are NEARLY equal (same length, far from the origin, shifted by a fraction of a step): each its own grid
+    p_ = float(rng.choice([0.01, 0.7, 60.0, 1.0]))
+    n_ = int(rng.integers(3, 50))
+    lo0 = p_ * float(rng.choice([1e6, 1e7, -1e6])) * float(rng.integers(1, 40))
+    near = [lo0 + sh * p_ + p_ * np.arange(n_) for sh in (0.0, 0.5, 0.35, -0.4)[: int(rng.integers(2, 5))]]
+    dat = np.column_stack([rng.uniform(g_[0] - p_, g_[-1] + p_, size=12) for g_ in near])
+    try:
+        dg = np.asarray(digitize_data(dat, [g_.copy() for g_ in near]))
+        cnt("extra_digitize_nearly_equal_grids")
+        for j in range(len(near)):
+            for k, why in judge(near[j], dat[:, j].copy(), np.array(dg[:, j], dtype=np.float64))[:1]:
+                out["violations"].append({"msg": f"digitize_data with nearly equal grids, column {j}: {why}", "witness": {"grids": near, "data": dat}})
+    except Exception as e:  # noqa: BLE001
+        out["violations"].append({"msg": f"digitize_data with nearly equal grids raised {type(e).__name__}: {e}", "witness": {"grids": near}})
     # (d) grids at the ends of the float range / with gaps whose squares leave it
     big = np.sort(rng.uniform(-1.7, 1.7, size=int(rng.integers(2, 12)))) * 1e308
     vb = np.concatenate([big, (big[:-1] / 2 + big[1:] / 2), rng.uniform(-1.7, 1.7, size=20) * 1e308, [0.0, 1e300, -1e300]])
